@@ -155,14 +155,24 @@ func zzH_C09_validator() {
 		s.CreateValidator("n", zzAddr(3), zzAddr(3), zzRoles[zzverif.Choose("n.role", 3)], zzPub(3), zzPub(3), tok, params.YOUToStake(tok), 1, 0, 0, 1)
 	case 1:
 		cur := s.GetValidatorByMainAddr(zzValAddr(1))
-		nv := cur.PartialCopy()
 		st := zzverif.U8("u.status")
 		zzverif.Assume(st <= 1)
-		nv.Status = st
 		add := zzverif.Big("u.add", 90)
-		nv.SelfToken.Add(nv.SelfToken, add)
-		nv.Token.Add(nv.Token, add)
-		s.UpdateValidator(nv, cur)
+		if zzverif.Bool("u.inPlace") {
+			// the other calling convention (teDelegationSub, recoverFromExpiredExpelling, the
+			// proposer reward): keep a copy as the old value and change the live object
+			old := cur.PartialCopy()
+			cur.Status = st
+			cur.SelfToken.Add(cur.SelfToken, add)
+			cur.Token.Add(cur.Token, add)
+			s.UpdateValidator(cur, old)
+		} else {
+			nv := cur.PartialCopy()
+			nv.Status = st
+			nv.SelfToken.Add(nv.SelfToken, add)
+			nv.Token.Add(nv.Token, add)
+			s.UpdateValidator(nv, cur)
+		}
 	case 2:
 		cur := s.GetValidatorByMainAddr(zzValAddr(1))
 		delta := zzverif.Big("d.delta", 90)
